@@ -12,6 +12,8 @@ Scheduling points (nothing in /repo is touched)
         aggregates, in WHERE clauses (one point per scanned row) and in sub-queries;
   (i')  the PURE BQL function ``vc(x)``: constant-folded, hence evaluated BY THE COMPILER; a point during compilation
         (before placeholders are bound and columns resolved: targets compile left to right, FROM first, WHERE last);
+  (iv)  inside PARSING: the semantic actions identifier / integer / string of beanquery.parser.BQLSemantics are wrapped
+        at run time; for the short text statements pa / pb / pc every such token is a point;
   (ii)  a harness table whose iterator yields to the scheduler before every row;
   (iii) thorough tier: a point before every source line executed in <repo>/beanquery/*.py
         (sys.settrace installed in each harness thread).
@@ -53,6 +55,7 @@ import json
 import os
 import re
 import textwrap
+import threading
 
 import beanquery
 from beancount import loader
@@ -93,6 +96,38 @@ def _register_vy():
 
 
 _register_vy()
+
+
+# Scheduling points INSIDE PARSING (iv): the semantic actions of beanquery.parser.BQLSemantics are ordinary methods
+# called by the TatSu parser while a text is being parsed.  They are wrapped at run time (class attributes; /repo is
+# not touched; restored by run()/replay()): the wrapper is a scheduling point -- only for threads that switched it on
+# (the bodies of the PARSE_MENU statements), a no-op everywhere else -- and then calls the original action.
+PARSE_ACTIONS = ('identifier', 'integer', 'string')
+_parse_tl = threading.local()
+_parse_saved = {}
+
+
+def install_parse_points():
+    from beanquery.parser import BQLSemantics
+    for name in PARSE_ACTIONS:
+        if name in _parse_saved:
+            continue
+        orig = BQLSemantics.__dict__[name]
+        _parse_saved[name] = orig
+
+        def wrapper(self, value, _orig=orig, _name=name):
+            if getattr(_parse_tl, 'on', False):
+                sched.point(('parse', _name, value))
+            return _orig(self, value)
+        wrapper.__name__ = name
+        setattr(BQLSemantics, name, wrapper)
+
+
+def restore_parse_points():
+    from beanquery.parser import BQLSemantics
+    for name, orig in list(_parse_saved.items()):
+        setattr(BQLSemantics, name, orig)
+        del _parse_saved[name]
 
 
 class SchedTable(HTable):
@@ -184,6 +219,14 @@ TEXT_MENU = {
     'tagg2': ("SELECT currency, count(*) AS n, vy(1) * sum(number) AS s WHERE account ~ 'Income' GROUP BY currency", None, ()),
     'tplain': ("SELECT account, vy(1) AS y, number WHERE account ~ 'Assets:A'", None, ()),
 }
+# Short texts whose PARSING is interleaved: every identifier / integer / string literal is a scheduling point (iv).
+PARSE_MENU = {
+    'pa': ("SELECT account, number WHERE number > 1", None, ()),
+    'pb': ("SELECT account WHERE currency = 'EUR'", None, ()),
+    'pc': ("SELECT x, s FROM #ht", None, ()),
+}
+PARSE_PAIRS = [('pa', 'pa'), ('pa', 'pb'), ('pb', 'pb'), ('pa', 'pc')]
+TEXT_MENU.update(PARSE_MENU)
 MENU.update(TEXT_MENU)
 TEXT_PAIRS = [('tagg', 'tagg'), ('tagg', 'tagg2'), ('tagg', 'tplain'), ('tplain', 'tplain'), ('tagg', 'agg'), ('tplain', 'named')]
 CANARY = ('canary', 'canary')
@@ -311,6 +354,7 @@ class Item:
     def __init__(self, mode, config, ids, bound, seed=0, sub=(0, 1), cap=None):
         self.mode, self.config, self.ids, self.bound = mode, config, tuple(ids), bound
         self.seed, self.sub, self.cap = seed, tuple(sub), cap
+        install_parse_points()
         self.e = env(seed)
         # mode: 'yield' (points (i)+(ii) only) | 'line' (every line of beanquery/*.py) | 'line:a.py,b.py' (those files)
         bq = os.path.join(os.path.realpath(REPO), 'beanquery', '')
@@ -341,15 +385,19 @@ class Item:
                     asts[sid] = MENU[sid][0]            # the text itself: execute() parses it
                 else:
                     asts[sid] = copy_ast(e['pristine'][sid]) if e['has_ph'][sid] else e['ast'][sid]
-        return [self._body(conns[i], asts[sid], params_for(sid, i, e)) for i, sid in enumerate(self.ids)]
+        return [self._body(conns[i], asts[sid], params_for(sid, i, e), sid in PARSE_MENU) for i, sid in enumerate(self.ids)]
 
     @staticmethod
-    def _body(conn, stmt, params):
+    def _body(conn, stmt, params, parse_points=False):
         def body():
-            cur = conn.cursor()
-            cur.execute(stmt, params)
-            rows = cur.fetchall()
-            return Obs(cur.description, rows)
+            _parse_tl.on = parse_points
+            try:
+                cur = conn.cursor()
+                cur.execute(stmt, params)
+                rows = cur.fetchall()
+                return Obs(cur.description, rows)
+            finally:
+                _parse_tl.on = False
         return body
 
     def serial(self):
@@ -554,6 +602,8 @@ def plan(ctx):
     for config in ('shared', 'separate'):
         for ids in TEXT_PAIRS:
             add('yield', config, ids, None, sched.interleavings(*[pts[s] + 1 for s in ids]), 600)
+        for ids in PARSE_PAIRS:       # two parses per execution (20-30 ms each): small sub-shards
+            add('yield', config, ids, None, sched.interleavings(*[pts[s] + 1 for s in ids]), 30)
     for config in CONFIGS:
         for ids in triples:
             p = sum(pts[s] for s in ids)
@@ -594,6 +644,13 @@ def shard_fn(shard, nshards, specs):
 # ---------------------------------------------------------------------------------------------
 
 def replay(case):
+    try:
+        return _replay(case)
+    finally:
+        restore_parse_points()
+
+
+def _replay(case):
     """Re-execute one recorded schedule (twice), compare with the serial references."""
     item = Item(case['mode'], case['config'], case['ids'], case.get('bound'), case.get('seed', 0))
     acceptable, alone = item.serial()
@@ -676,6 +733,13 @@ def free_running_smoke(ctx, rounds=3):
 
 
 def run(ctx):
+    try:
+        return _run(ctx)
+    finally:
+        restore_parse_points()
+
+
+def _run(ctx):
     import threading
     import time
     t0 = time.time()
